@@ -96,6 +96,39 @@ int main() {
             put_response(out, r2, seen);
             return;
         }
+        if (mode == 6) {
+            // admission of one STORE by the real parse_request + handle_store of a fresh daemon
+            en::Config c6{};
+            c6.identity_seed = 5u; c6.relay_enabled = false; c6.storage_persistent_enabled = false;
+            c6.store_pow_difficulty = static_cast<std::uint8_t>(in.next());
+            c6.min_manifest_ttl = std::chrono::seconds(in.next());
+            c6.max_manifest_ttl = std::chrono::seconds(in.next());
+            c6.default_chunk_ttl = std::chrono::seconds(in.next());
+            c6.control_stream_max_bytes = static_cast<std::size_t>(in.next());
+            const auto declared = read_opt(in);
+            const auto body = in.str();
+            const auto ttl = read_opt(in); const auto path = read_opt(in); const auto pow = read_opt(in);
+            en::PeerId self6{}; self6[0] = 0x28;
+            auto* node6 = new en::Node(self6, c6);
+            std::mutex m6;
+            dm::ControlServer::Impl impl6(*node6, m6, [] {});
+            std::string req = "COMMAND:STORE\n";
+            if (ttl) req += "TTL:" + *ttl + "\n";
+            if (path) req += "PATH:" + *path + "\n";
+            if (pow) req += "STORE-POW:" + *pow + "\n";
+            if (declared) req += "PAYLOAD-LENGTH:" + *declared + "\n";
+            req += "\n" + body;
+            const auto resp = request(impl6, req, "198.51.100.28");
+            static const char* kCodes[] = {"CODE:OK_STORE\n", "CODE:ERR_CONTROL_PAYLOAD_LENGTH\n", "CODE:ERR_CONTROL_PAYLOAD_TOO_LARGE\n",
+                                           "CODE:ERR_CONTROL_PAYLOAD_TRUNCATED\n", "CODE:ERR_STORE_PAYLOAD_REQUIRED\n", "CODE:ERR_STORE_TTL_INVALID\n",
+                                           "CODE:ERR_STORE_TTL_OUT_OF_RANGE\n", "CODE:ERR_STORE_POW_REQUIRED\n", "CODE:ERR_STORE_POW_INVALID\n"};
+            i64 code = 99;
+            for (i64 k = 0; k < 9; ++k) if (resp.find(kCodes[k]) != std::string::npos) { code = k; break; }
+            if ((code == 0) != (resp.rfind("STATUS:OK", 0) == 0)) code = 98;
+            out.put(code);
+            out.put(static_cast<i64>(node6->stored_chunks().size()));
+            return;
+        }
         en::Config cfg{};
         cfg.identity_seed = 5u; cfg.relay_enabled = false; cfg.storage_persistent_enabled = false;
         cfg.store_pow_difficulty = 0; cfg.shard_threshold = 2; cfg.shard_total = 3;
@@ -117,16 +150,21 @@ int main() {
         const std::string foreign_uri = en::protocol::encode_manifest(publisher->store_chunk(cid2, en::ChunkData{1}, std::chrono::seconds(600)));
         if (mode == 3) {
             const auto presented = read_opt(in); const i64 cmd = in.next();
-            const std::string tok = presented ? "TOKEN:" + *presented + "\n" : std::string{};
+            const i64 order = in.next();      // 0: TOKEN right after COMMAND, 1: TOKEN as the last header
+            const i64 svariant = in.next();   // FETCH to a daemon-side path: additionally a non-streaming STREAM header
+            const std::string tokline = presented ? "TOKEN:" + *presented + "\n" : std::string{};
+            const std::string tok = order == 0 ? tokline : std::string{};
+            const std::string tail = order == 0 ? std::string{} : tokline;
             const std::string outfile = "/tmp/verif-c27-" + std::to_string(::getpid()) + ".out";
             std::remove(outfile.c_str());
             const auto chunks_before = node->stored_chunks().size();
             const auto manifests_before = en::test::NodeTestAccess::manifests(*node);
+            static const char* kNoStream[] = {"", "STREAM:0\n", "STREAM:no\n", "STREAM:\n", "STREAM:daemon\n"};
             std::string req;
-            if (cmd == 0) req = "COMMAND:STORE\n" + tok + "TTL:600\nPAYLOAD-LENGTH:4\n\nabcd";
-            else if (cmd == 1) req = "COMMAND:FETCH\n" + tok + "MANIFEST:" + foreign_uri + "\nSTREAM:client\n\n";
-            else if (cmd == 2) req = "COMMAND:FETCH\n" + tok + "MANIFEST:" + uri + "\nOUT:" + outfile + "\n\n";
-            else req = "COMMAND:STOP\n" + tok + "\n";
+            if (cmd == 0) req = "COMMAND:STORE\n" + tok + "TTL:600\nPAYLOAD-LENGTH:4\n" + tail + "\nabcd";
+            else if (cmd == 1) req = "COMMAND:FETCH\n" + tok + "MANIFEST:" + foreign_uri + "\nSTREAM:client\n" + tail + "\n";
+            else if (cmd == 2) req = "COMMAND:FETCH\n" + tok + "MANIFEST:" + uri + "\n" + kNoStream[svariant >= 0 && svariant < 5 ? svariant : 0] + "OUT:" + outfile + "\n" + tail + "\n";
+            else req = "COMMAND:STOP\n" + tok + tail + "\n";
             const auto resp = request(impl, req, "198.51.100.9");
             const bool ok = resp.rfind("STATUS:OK", 0) == 0;
             const bool auth = resp.find("_UNAUTHENTICATED") != std::string::npos;
@@ -144,7 +182,11 @@ int main() {
             // `eph list` end to end: k chunks stored, LIST through the real handler, the real client reader, then the CLI's own
             // splitting rule (lines of 4 comma separated tokens)
             const i64 k = in.next();
+            const i64 k2 = in.next();        // chunks with a 30 s lifetime
+            const i64 adv_ms = in.next();    // clock advance before LIST (e.g. into the last second of those chunks)
             for (i64 i = 0; i < k; ++i) { en::ChunkId c{}; c[0] = 0x40; c[1] = static_cast<std::uint8_t>(i); c[2] = static_cast<std::uint8_t>(i >> 8); node->store_chunk(c, en::ChunkData{1, 2}, std::chrono::seconds(600)); }
+            for (i64 i = 0; i < k2; ++i) { en::ChunkId c{}; c[0] = 0x41; c[1] = static_cast<std::uint8_t>(i); node->store_chunk(c, en::ChunkData{3}, std::chrono::seconds(30)); }
+            hv::g_now_ns += (adv_ms > 0 ? adv_ms : 0) * 1'000'000LL;
             const auto resp = request(impl, "COMMAND:LIST\n\n", "198.51.100.9");
             const auto r = client_reads(resp);
             out.put(r.success ? 1 : 0);
